@@ -109,6 +109,8 @@ def run(tier, seed, replay=None):
         if kind == 'visits_None':
             t = witness_tree(cname, info, none_field=f)
             wl.append(f'  negb (visits_eqb (walk S ({coq_tree(t)}) false false) (spec ({coq_tree(t)}) false false))')
+        elif kind in ('callback_receives_container', 'elements_reordered'):
+            wl.append('  true')       # not expressible in the generic-tree model: established by the replay on the real walker only
         elif kind == 'replacement_REntry':
             # the generic tree has no node for the list entry (CTE wrapper), so this deviation is visible
             # only in the schedule itself
@@ -383,4 +385,9 @@ def _confirm(dev):
         return order != want
     if kind == 'wrong_flags':
         return True
+    if kind == 'callback_receives_container':
+        return any(isinstance(n, (list, tuple, dict)) for n in seen)
+    if kind == 'elements_reordered':
+        idx = [owner[id(n)][1] for n in seen if n is not None and id(n) in owner and owner[id(n)][0] == f]
+        return idx != sorted(idx)
     return False
